@@ -43,6 +43,10 @@ type far struct {
 	tunnelIP4Dst  uint32
 	tunnelTEID    uint32
 	tunnelPort    uint16
+
+	// keepDstIntf is set on a parsed Update FAR that carries no Destination Interface
+	// (the IE is only present if it changed).
+	keepDstIntf bool
 }
 
 func (f far) String() string {
@@ -152,6 +156,8 @@ func (f *far) parseFAR(farIE *ie.IE, fseid uint64, upf *upf, op operation) error
 			}
 		}
 	}
+
+	f.keepDstIntf = op == update && fields&FwdIEDestinationIntf == 0
 
 	return nil
 }
